@@ -92,7 +92,7 @@ def screen_check(pid, tier, seed, families, rules_note, need_paints=True, level=
                                  replay={"driver": "api", "monitor": "Trace_Screen", "rule": v["rule"], "expected_lines": ["".join(chr(c) if 32 <= c < 127 else "<%d>" % c for c in l) for l in v.get("exp", [])],
                                          "history": {"h": 1, "cfg": h["cfg"], "ops": prefix}}))
     # vacuity: the clauses must have been exercised
-    if (need_paints and stats.get("paints", 0) == 0) or stats.get("recs", 0) == 0:
+    if ((need_paints and stats.get("paints", 0) == 0) or stats.get("recs", 0) == 0) and not all_fail:
         raise vlib.ToolError("vacuous run: no painted frame was validated")
     all_fail.sort(key=lambda x: x["n"])   # shortest witness first per class
     coverage = dict(states=states, transitions=trans, traces_validated_against_impl=nh, records_validated=nrec,
@@ -653,13 +653,13 @@ def c05(pid, tier, seed):
     nh += len(flood)
     nrec += totalf
     fams.append({"family": "ticker_flood", "histories": len(flood), "records": totalf, "verdicts": len(badf), "ticker_ticks": stf.get("ticks", 0)})
-    if stf.get("ticks", 0) < 100:
+    if stf.get("ticks", 0) < 100 and not badf:
         raise vlib.ToolError("vacuous ticker clause: %s" % stf)
     byf = {r["h"]: r for r in flood}
     for v in badf:
         fails.append(dict(cls="%s/ticker" % v["rule"], rule=v["rule"], n=1, kf=[], what="rule=%s family=ticker_flood program=%s" % (v["rule"], byf[v["h"]]["program"]),
                           replay={"driver": "sync", "monitor": "Trace_Sync", "rule": v["rule"], "history": byf[v["h"]]}))
-    if stats.get("painted", 0) == 0 or stats.get("denied", 0) == 0 or stats.get("fresh", 0) == 0:
+    if (stats.get("painted", 0) == 0 or stats.get("denied", 0) == 0 or stats.get("fresh", 0) == 0) and not fails:
         raise vlib.ToolError("vacuous run: painted/denied/fresh clauses not all exercised: %s" % stats)
     # "skipped draws lose nothing: the next painted frame shows the latest position, length and texts" for several bars behind one
     # limited target is a statement about the whole frame: judged by the Screen contract on limited MultiProgress histories
